@@ -41,14 +41,24 @@ const GAP_MAX: i64 = if WIDE { 10 } else { 3 };
 /// window) in the quick tier, where the 30-day boundary is C02's job and the
 /// check has to finish well inside 15 minutes.
 fn off(always_symbolic: bool, quick_value: i64) -> i64 {
-    // (fixing the offsets in the quick tier was measured: no speed-up worth the
-    // loss of coverage, so they are always symbolic)
+    // (fixing the offsets in the quick tier was measured twice: same formula
+    // size, no speed-up, and cover witnesses become unreachable -- so they are
+    // always symbolic)
     let _ = (always_symbolic, quick_value);
     any_in(0, OFF_MAX)
 }
 fn gap(always_symbolic: bool, quick_value: i64) -> i64 {
     let _ = (always_symbolic, quick_value);
     any_in(0, GAP_MAX)
+}
+
+/// Reachability witness of a window harness. Each witness is a separate SAT
+/// query over the whole formula and the first one costs 250-550 s (the final
+/// UNSAT query for all assertions: 1-60 s), so the quick tier, which has to
+/// finish inside 15 minutes on a loaded machine, compiles them out; the
+/// thorough tier of the same harness keeps them (all satisfied there).
+macro_rules! wcover {
+    ($what:literal) => {{ if WIDE { vcover!($what); } }};
 }
 
 fn min3(a: i64, b: i64, c: i64) -> i64 {
@@ -61,8 +71,16 @@ fn min3(a: i64, b: i64, c: i64) -> i64 {
 // scan that looked at trade dates would disagree with the oracle near the
 // 30/31-day boundary.
 fn traded(mut t: Tx, settle_day: i64) -> Tx {
-    let gap = any_in(0, 3);
-    t.trade_date = date(settle_day - gap);
+    if WIDE {
+        let gap = any_in(0, 3);
+        t.trade_date = date(settle_day - gap);
+    } else {
+        // quick tier: one fixed trade date, 40 days before the sale, for every
+        // row (a scan keyed on trade dates would put every row on one day and
+        // disagree with the oracle); saves one symbolic date conversion per row
+        let _ = settle_day;
+        t.trade_date = date(SALE_DAY - 40);
+    }
     t
 }
 fn a_sale(af: u8, n: i64, idx: u32) -> Tx {
@@ -107,13 +125,13 @@ fn check_result(
     let superficial = acquired > 0 && held > 0;
     match r {
         Some(res) => {
-            vcover!("superficial");
+            wcover!("superficial");
             assert!(superficial);
             assert!(*res.sfl_ratio.denominator == dec(n, 0));
             assert!(*res.sfl_ratio.numerator == dec(min3(n, acquired, held), 0));
         }
         None => {
-            vcover!("not superficial");
+            wcover!("not superficial");
             assert!(!superficial);
         }
     }
@@ -184,7 +202,7 @@ sl_harness! {
                 core::mem::forget(res);
             }
             Err(_) => {
-                vcover!("rejected");
+                wcover!("rejected");
                 // C04: rejected only when a sale inside the window really over-sells
                 assert!(oversold);
             }
@@ -239,7 +257,7 @@ sl_harness! {
                 core::mem::forget(res);
             }
             Err(_) => {
-                vcover!("rejected");
+                wcover!("rejected");
                 assert!(oversold);
             }
         }
@@ -278,14 +296,14 @@ fn lookahead_split_sell(mode: u8) {
     let oversold = if in2 { if in1 { z * pre > (bd - n) * post } else { z > bd - n } } else { false };
     match r {
         Ok(res) => {
-            vcover!("accepted");
+            wcover!("accepted");
             assert!(!oversold);
             // nothing was acquired: never superficial
             assert!(res.is_none());
             core::mem::forget(res);
         }
         Err(_) => {
-            vcover!("rejected");
+            wcover!("rejected");
             assert!(oversold, "look-ahead rejected a sale the holdings cover");
         }
     }
@@ -354,13 +372,13 @@ sl_harness! {
                 let superficial = acq10 > 0 && held10 > 0;
                 match &res {
                     Some(rr) => {
-                        vcover!("superficial");
+                        wcover!("superficial");
                         assert!(superficial);
                         let num10 = min3(n * 10, acq10, held10);
                         assert!(*rr.sfl_ratio.numerator == dec(num10, 1));
                         assert!(*rr.sfl_ratio.denominator == dec(n, 0));
                     }
-                    None => { vcover!("not superficial"); assert!(!superficial); }
+                    None => { wcover!("not superficial"); assert!(!superficial); }
                 }
                 core::mem::forget(res);
             }
@@ -386,7 +404,7 @@ sl_harness! {
         let held = bd - n;
         match r {
             Ok(Some(rr)) => {
-                vcover!("superficial");
+                wcover!("superficial");
                 assert!(held > 0);
                 assert!(*rr.sfl_ratio.numerator == dec(min3(n, x, held), 0) && *rr.sfl_ratio.denominator == dec(n, 0));
                 assert!(rr.acb_adjust_affiliate_ratios.len() == 1);
@@ -395,7 +413,7 @@ sl_harness! {
                 assert!(!rr.fewer_remaining_shares_than_sfl_shares);
                 core::mem::forget(rr);
             }
-            Ok(None) => { vcover!("not superficial"); assert!(held == 0); }
+            Ok(None) => { wcover!("not superficial"); assert!(held == 0); }
             Err(_) => assert!(false, "rejected"),
         }
         core::mem::forget(txs); core::mem::forget(st);
@@ -417,7 +435,7 @@ sl_harness! {
         let hd = bd - n; let hb = bb - z; let held = hd + hb;
         match r {
             Ok(Some(rr)) => {
-                vcover!("superficial");
+                wcover!("superficial");
                 assert!(held > 0);
                 assert!(*rr.sfl_ratio.numerator == dec(min3(n, x + y, held), 0) && *rr.sfl_ratio.denominator == dec(n, 0));
                 // both affiliates are buyers: portions h_k / (h_d + h_b), zero holdings included
@@ -429,7 +447,7 @@ sl_harness! {
                 assert!(!rr.fewer_remaining_shares_than_sfl_shares);
                 core::mem::forget(rr);
             }
-            Ok(None) => { vcover!("not superficial"); assert!(held == 0); }
+            Ok(None) => { wcover!("not superficial"); assert!(held == 0); }
             Err(_) => assert!(false, "rejected"),
         }
         core::mem::forget(txs); core::mem::forget(st);
@@ -444,7 +462,7 @@ fn lemma_concrete(x: i64, y: i64, bd: i64, bb: i64, n: i64, z: i64) {
     let hd = bd - n; let hb = bb - z; let held = hd + hb;
     match r {
         Ok(Some(rr)) => {
-            vcover!("superficial");
+            wcover!("superficial");
             assert!(*rr.sfl_ratio.numerator == dec(min3(n, x + y, held), 0) && *rr.sfl_ratio.denominator == dec(n, 0));
             assert!(rr.acb_adjust_affiliate_ratios.len() == 2);
             let pd = rr.acb_adjust_affiliate_ratios.get(&aff(0)).unwrap();
